@@ -150,6 +150,12 @@ def _setup(ctx):
 
 
 def expected_value(t, name):
+    """The attribute's value; the 'n/a' placeholder only for a name that is
+    not one of Tract.ATTRIBUTES. (A documented attribute is read WITHOUT a
+    default: if reading it raises, the export must not paper over that with
+    the placeholder -- the exception surfaces here as a violation.)"""
+    if name in type(t).ATTRIBUTES:
+        return getattr(t, name)
     return getattr(t, name, f"{name}: n/a")
 
 
@@ -216,11 +222,13 @@ def check_csv(case, d, ctx, pytrs, tmp):
                         nice_headers=nice, uid=uid)
         # "a Tract, PLSSDesc, TractList, or an iterable container of any
         # number and combination of them"
-        how = ctx.evaluations % 5
+        how = ctx.evaluations % 7
         ctx.hit(f'csv:TractWriter:arg{how}')
         arg = (d if how == 0 else d.tracts if how == 1 else list(d.tracts)
                if how == 2 else [d] if how == 3
-               else (pytrs.TractList(tracts[:1]), tracts[1:]))
+               else (pytrs.TractList(tracts[:1]), tracts[1:]) if how == 4
+               else (t for t in tracts) if how == 5     # a generator
+               else [iter(tracts[:1]), tracts[1:]])
         n = w.write(arg, plus_cols=plus_data)
         w.close()
         if n != len(tracts):
